@@ -28,6 +28,7 @@ type sop struct {
 	Other  *subHist
 	Factor gen.Factor
 	Stream bool // protomerge: through the streaming EncodeProto writer instead of ToProto
+	Meth   bool // proto merges: through the receiver's own MergeWithProto method where it has one (paginated store)
 }
 
 type subHist struct {
@@ -53,7 +54,7 @@ func (o sop) String() string {
 	case "decmerge":
 		return fmt.Sprintf("DecodeAndMergeWith(Encode(%s%v))", o.Other.Kind, o.Other.Ops)
 	case "protomerge":
-		return fmt.Sprintf("MergeWithProto(%s%v,stream=%v)", o.Other.Kind, o.Other.Ops, o.Stream)
+		return fmt.Sprintf("MergeWithProto(%s%v,stream=%v,method=%v)", o.Other.Kind, o.Other.Ops, o.Stream, o.Meth)
 	case "reweight":
 		return fmt.Sprintf("Reweight(%v)", o.Factor.F)
 	}
@@ -79,7 +80,7 @@ func (o sop) scaled(f float64) []sop {
 		for _, x := range o.Other.Ops {
 			sub.Ops = append(sub.Ops, x.scaled(f)...)
 		}
-		return []sop{{Kind: o.Kind, Other: sub, Stream: o.Stream}}
+		return []sop{{Kind: o.Kind, Other: sub, Stream: o.Stream, Meth: o.Meth}}
 	}
 	return []sop{o}
 }
@@ -223,6 +224,16 @@ func expected(k gen.StoreKind, m model.Map) model.Map {
 		return m.Fold(k.N, k.Lowest())
 	}
 	return m
+}
+
+// mergeProto merges a protobuf store message through the package function or, if asked and the store has one,
+// through its own method (BufferedPaginatedStore.MergeWithProto is public API that the package function does not use).
+func mergeProto(s store.Store, pb *sketchpb.Store, meth bool) {
+	if p, ok := s.(*store.BufferedPaginatedStore); ok && meth {
+		p.MergeWithProto(pb)
+		return
+	}
+	store.MergeWithProto(s, pb)
 }
 
 // encodeStore returns the binary encoding of the store's bins (positive flag type).
@@ -382,7 +393,10 @@ func (u *storeUnderTest) apply(op sop) string {
 				}
 				pb = &st
 			}
-			store.MergeWithProto(u.s, pb)
+			mergeProto(u.s, pb, op.Meth)
+			if op.Meth && u.kind.Name == "paginated" {
+				u.cl.label("paginated-method-mergewithproto")
+			}
 		}
 		u.m.Merge(argExp)
 		for i := range argExp {
@@ -435,14 +449,14 @@ func (u *storeUnderTest) apply(op sop) string {
 		}
 		if op.Kind == "proto" {
 			fresh := u.kind.New()
-			store.MergeWithProto(fresh, pb)
+			mergeProto(fresh, pb, op.Meth)
 			u.s = fresh
 			if u.kind.Collapsing() {
 				u.m = u.exp()
 			}
 		} else {
 			e := u.exp()
-			store.MergeWithProto(u.s, pb)
+			mergeProto(u.s, pb, op.Meth)
 			u.m.Merge(e)
 		}
 	default:
@@ -619,7 +633,7 @@ func (g *opGen) drawOp(t *rapid.T, u *storeUnderTest) sop {
 				ak.N = gen.BinLimit().Draw(t, "argN")
 			}
 		}
-		return sop{Kind: kind, Other: g.drawSub(t, ak, total), Stream: rapid.Bool().Draw(t, "viastream")}
+		return sop{Kind: kind, Other: g.drawSub(t, ak, total), Stream: rapid.Bool().Draw(t, "viastream"), Meth: rapid.Bool().Draw(t, "viamethod")}
 	case "reweight":
 		f := gen.ReweightFactor().Draw(t, "factor")
 		if f.F != 1 && !u.bud.FitsAfterFactor(total, f.F, f.Shift) {
@@ -631,9 +645,11 @@ func (g *opGen) drawOp(t *rapid.T, u *storeUnderTest) sop {
 			if kind == "encdouble" {
 				return sop{Kind: "encdec"}
 			}
-			return sop{Kind: "proto"}
+			return sop{Kind: "proto", Meth: rapid.Bool().Draw(t, "viamethod")}
 		}
-		return sop{Kind: kind}
+		return sop{Kind: kind, Meth: rapid.Bool().Draw(t, "viamethod")}
+	case "proto":
+		return sop{Kind: kind, Meth: rapid.Bool().Draw(t, "viamethod")}
 	default:
 		return sop{Kind: kind}
 	}
